@@ -221,21 +221,79 @@ def _value_ops(rng, tags, n):
 # ----------------------------------------------------------------------------------------------
 # driving the real archiver
 
-class _Now:
-    def __init__(self, k, second=0):
-        self.k = k
-        self.second = second
-
-    def __str__(self):
-        return time_str(self.k)
-
-    def strftime(self, fmt):
-        # the second advances at every Stop: a repeated on_start within a run finds the file of this run
-        return f"2026-01-01_{self.second:06d}"
-
-
 def time_str(k: int) -> str:
     return f"2026-01-01 00:{(k // 60) % 60:02d}:{k % 60:02d}.{(k * 125000) % 1000000:06d}+00:00"
+
+
+class controlled_clock:
+    """Context manager: while it is active `datetime.datetime.now()` gives the rig's time, however the code under
+    test reaches the class (`from datetime import datetime`, `import datetime`, `import datetime as _dt`): the class
+    is replaced in the `datetime` MODULE by a subclass, and every global of the archiver module that *is* the real
+    class is replaced too.  `str(now)` is the row time of the rig's clock, `now.strftime(...)` the stamp of the rig's
+    current second (file names: a repeated on_start within a run finds the run's file, the run after a Stop gets the
+    next name).  Everything is restored on exit."""
+
+    def __init__(self, rig):
+        self.rig = rig
+
+    def __enter__(self):
+        import datetime as D
+        rig, real = self.rig, D.datetime
+        self.D, self.real = D, real
+
+        class ControlledDatetime(real):
+            @classmethod
+            def now(cls, tz=None):
+                k = rig.clock
+                t = real.__new__(cls, 2026, 1, 1, 0, (k // 60) % 60, k % 60, (k * 125000) % 1000000, tzinfo=tz)
+                t.rig_clock, t.rig_second = k, rig.second
+                return t
+
+            def __str__(self):
+                return time_str(self.rig_clock) if hasattr(self, "rig_clock") else real.__str__(self)
+
+            def strftime(self, fmt):
+                if hasattr(self, "rig_second"):
+                    return f"2026-01-01_{self.rig_second:06d}"
+                return real.strftime(self, fmt)
+
+        D.datetime = ControlledDatetime
+        self.patched = [name for name, v in vars(rig.A).items() if v is real]
+        for name in self.patched:
+            setattr(rig.A, name, ControlledDatetime)
+        return self
+
+    def __exit__(self, *exc):
+        self.D.datetime = self.real
+        for name in self.patched:
+            setattr(self.rig.A, name, self.real)
+        return False
+
+
+class low_disk:
+    """Context manager: the drive of the archive directory reports 2 MB free (below VERY_LOW_DISKSPACE_MB), on the
+    library side (`os.statvfs`) and through the archiver's public `get_free_space_mb`."""
+
+    def __init__(self, A):
+        self.A = A
+
+    def __enter__(self):
+        import types
+        self.statvfs, self.free = os.statvfs, self.A.get_free_space_mb
+        real = os.statvfs
+
+        def statvfs(path):
+            r = real(path)
+            return types.SimpleNamespace(**{k: getattr(r, k) for k in dir(r) if k.startswith("f_")} |
+                                         {"f_frsize": 4096, "f_bsize": 4096, "f_bavail": 512, "f_bfree": 512})
+        os.statvfs = statvfs
+        self.A.get_free_space_mb = lambda dirname: 2
+        return self
+
+    def __exit__(self, *exc):
+        os.statvfs = self.statvfs
+        self.A.get_free_space_mb = self.free
+        return False
 
 
 class Rig:
@@ -251,14 +309,6 @@ class Rig:
         self.second = 0
         self.stopped = False
         self.data_path = None
-        rig = self
-
-        class FakeDatetime:
-            @staticmethod
-            def now(tz=None):
-                return _Now(rig.clock, rig.second)
-
-        self.FakeDatetime = FakeDatetime
         self.coll = TagCollection()
         self.tags = []
         self.spy: list[list] = []      # per archive-all call: the values archive() returned, in tag order
@@ -297,19 +347,12 @@ class Rig:
         t.archive = spying
 
     def op(self, op):
-        A = self.A
-        saved = A.datetime
-        A.datetime = self.FakeDatetime
-        try:
+        import contextlib
+        with controlled_clock(self):
             if op[0] in ("start", "startlow"):
-                free = A.get_free_space_mb
-                if op[0] == "startlow":
-                    A.get_free_space_mb = lambda d: 2      # below VERY_LOW_DISKSPACE_MB
-                try:
+                with (low_disk(self.A) if op[0] == "startlow" else contextlib.nullcontext()):
                     self.archiver._on_before_start(RUN_ID)   # what the event emitter does before on_start
                     self.archiver.on_start(RUN_ID)
-                finally:
-                    A.get_free_space_mb = free
                 self.stopped = False
             elif op[0] == "stop":
                 self.archiver.on_stop()
@@ -329,8 +372,6 @@ class Rig:
                 self.tags[op[1]].stop_simulation()
             elif op[0] == "mark":
                 self.tags[op[1]].set_value(op[2], 1.0)
-        finally:
-            A.datetime = saved
 
     def path(self):
         return self.archiver.file_path
@@ -657,8 +698,8 @@ def _run(ctx: Check, tmp: str) -> int:
         "create_run_stopped_msg ships); both must give the values that were set on the tags",
         "CPython csv writer/reader and text-file line splitting are modelled for this dialect and validated differentially",
         "tag classes are the ones in the tree: archive() is None for ArchiverTag only, and then always",
-        "several runs per history (Stop = next file name); starts below the disk-space guard (get_free_space_mb patched "
-        "to 2 MB) prepare no file: such a run has no archive and no rows, what was archived is judged per file left "
+        "several runs per history (Stop = next file name); starts below the disk-space guard (os.statvfs and get_free_space_mb report "
+        "2 MB) prepare no file: such a run has no archive and no rows, what was archived is judged per file left "
         "behind (each must start with the header of its tags); read_last_run_archive raising FileNotFoundError for a "
         "run without a file is tolerated (nothing to read back)",
         "oracle: expected cells come from the values SET on the tags (numbers compared numerically, texts exactly, "
